@@ -269,6 +269,7 @@ fcol = z3.Function('fcol', INT, INT, INT)
 fvalid = z3.Function('fvalid', INT, INT, INT, BOOL)  # fvalid(i, nrows, ncols): i is a valid flat position (0 <= i < nrows*ncols)
 mdot = z3.Function('mdot', A2R, A2R, A2R)               # the matrix product, as a value (uninterpreted: only congruence and the mpw equations are used)
 mpw = z3.Function('mpw', A2R, INT, A2R)                  # mpw(G, d) = G^d:  mpw(G, 1) = G,  mpw(G, d+1) = mdot(mpw(G, d), G)
+wd = z3.Function('wd', A2R, INT, INT, REAL)               # wd(G, x, y): minimum total length over walks from x to y (meaningful when y is reachable from x)
 msq = z3.Function('msq', A2R, A1I, INT, INT, INT, REAL)     # msq(W, c, x, k, n) = sum_{m < k} modsum(W, c, x, m, n)^2
 pathsum = z3.Function('pathsum', A2R, A1I, INT, REAL)   # pathsum(M, p, k) = sum_{t < k-1} M[p[t]][p[t+1]]  (k nodes, k-1 steps)
 agg = z3.Function('agg', A2R, A1I, INT, INT, INT, REAL)          # agg(W, ci, a, b, n) = sum_{x,y<n, ci[x]=a+1, ci[y]=b+1} W[x][y]
@@ -1533,19 +1534,31 @@ class Engine:
         # arrays first bound INSIDE the loop body and read after the loop (or in a later iteration): at the head of an arbitrary
         # iteration they are arbitrary arrays of the declared rank/shape; the invariant may speak about them only under a guard
         # that is concretely false before the first iteration
+        declared = set()
         for nm, (kind, *dims) in spec.get('declare', {}).items():
-            if nm in st.env:
+            if nm in st.env and not isinstance(st.env[nm], TupleV):
                 continue
             if nm not in names:
                 raise ContractError('declared loop-carried name %s is not assigned in the loop' % nm)
-            shp = tuple(self.ev_str(d, st) for d in dims)
+            shp = []
+            for d in dims:
+                if d == '?':           # a length that is only known through the invariant
+                    k_ = fresh('hv_len_' + nm, INT)
+                    st.pc.append(k_ >= 0)
+                    shp.append(k_)
+                else:
+                    shp.append(self.ev_str(d, st))
+            shp = tuple(shp)
             if kind == 'mat':
                 st.env[nm] = alloc(st, 2, fresh('hv_' + nm, A2R), shp, REAL)
             elif kind == 'int1':
                 st.env[nm] = alloc(st, 1, fresh('hv_' + nm, A1I), shp, INT)
             else:
                 raise ContractError('declare kind %s' % kind)
+            declared.add(nm)
         for nm in sorted(names):
+            if nm in declared:
+                continue
             v = st.env.get(nm)
             if v is None and nm not in st.env:
                 continue
@@ -1648,7 +1661,9 @@ class Engine:
                 lo, hi = to_z3(lo, INT), to_z3(hi, INT)
                 elem = lambda t: lo + t
                 count = z3.If(hi > lo, hi - lo, 0)
-            elif isinstance(it, (Ref, Row)):
+            elif isinstance(it, (Ref, Row)) or (isinstance(it, (tuple, list)) and not isinstance(it, Opaque) and it):
+                if isinstance(it, (tuple, list)):
+                    it = self.np.as_row(self, st, it)
                 n_ = self.np.shape(self, st, it)[0]
                 count = to_z3(n_, INT)
                 itv = it
@@ -2093,6 +2108,16 @@ def _sb_unique_witness(eng, st, node):
     if wit is None:
         raise ContractError('no np.unique call seen')
     return wit(to_z3(eng.ev(node.args[0], st), INT))
+
+
+def _term1r(eng, st, v):
+    if isinstance(v, Row):
+        v = eng.np.materialise(eng, st, v)
+    if isinstance(v, Ref):
+        return eng.pure(st.heap[v.oid].term)
+    if isinstance(v, Opaque) and v.kind == 'snapshot':
+        return eng.pure(v.obj.term)
+    raise ContractError('1-D real array expected, got %r' % (v,))
 
 
 def _term1b(eng, st, v):
@@ -2548,6 +2573,76 @@ def _sb_lemma_modsum_def(eng, st, node):
     return z3.Implies(hyp, z3.ForAll([x], z3.Implies(z3.And(x >= 0, x < n), sum1(z3.Select(R, x), n) == modsum(W, c, x, m, n)), patterns=[sum1(z3.Select(R, x), n)]))
 
 
+def _reachw(G, a, b):
+    return z3.Or(a == b, sdist(G, a, b) >= 1)
+
+
+def _sb_wd(eng, st, node):
+    G = _term2(eng, st, eng.ev(node.args[0], st))
+    return wd(G, to_z3(eng.ev(node.args[1], st), INT), to_z3(eng.ev(node.args[2], st), INT))
+
+
+def _sb_lemma_wd(eng, st, node):
+    """LEMMA (Lean: wd_self, wd_nonneg, wd_relax, reachw_iff_sdist): for a matrix of non-negative connection lengths: wd(x, x) == 0; wd >= 0 on reachable
+    pairs; relaxation: y reachable from x and a connection y -> z  =>  z reachable from x and wd(x, z) <= wd(x, y) + G[y][z].  lemma_wd(G, n)."""
+    G = _term2(eng, st, eng.ev(node.args[0], st))
+    n = to_z3(eng.ev(node.args[1], st), INT)
+    x, y, z = z3.Ints('x!wd y!wd z!wd')
+    g = lambda a, b: z3.Select(z3.Select(G, a), b)
+    inr_ = lambda t: z3.And(t >= 0, t < n)
+    hyp = z3.ForAll([x, y], z3.Implies(z3.And(inr_(x), inr_(y)), g(x, y) >= 0))
+    return z3.Implies(hyp, z3.And(
+        z3.ForAll([x], z3.Implies(inr_(x), wd(G, x, x) == 0), patterns=[wd(G, x, x)]),
+        z3.ForAll([x, y], z3.Implies(z3.And(inr_(x), inr_(y), _reachw(G, x, y)), wd(G, x, y) >= 0), patterns=[wd(G, x, y)]),
+        z3.ForAll([x, y, z], z3.Implies(z3.And(inr_(x), inr_(y), inr_(z), _reachw(G, x, y), g(y, z) != 0), z3.And(_reachw(G, x, z), wd(G, x, z) <= wd(G, x, y) + g(y, z))),
+                  patterns=[z3.MultiPattern(wd(G, x, y), g(y, z))])))
+
+
+def _sb_lemma_dijkstra(eng, st, node):
+    """LEMMA (Lean: dijkstra_step, dijkstra_exhausted, dijkstra_lower).  lemma_dijkstra(G, u, P, T, pr, n): P boolean array (permanent nodes), T real array (tentative
+    values), pr integer array (a permanent predecessor attaining a finite tentative value).  Hypotheses: non-negative lengths; u in P; every
+    permanent node is reachable from u; permanent nodes are no farther than reachable temporary ones; for every temporary w: T[w] <= wd(u,v) + G[v][w]
+    for every permanent v with a connection v -> w, and T[w] == INF or (pr[w] permanent, connection pr[w] -> w, T[w] == wd(u,pr[w]) + G[pr[w]][w]);
+    INF exceeds every wd(u,v) + G[v][w] with v permanent.  Conclusions: (step) a temporary x with T[x] != INF and T[x] <= T[w] for all temporary w
+    is reachable and wd(u, x) == T[x]; (exhausted) if T[w] == INF for every temporary w then no temporary node is reachable from u."""
+    G = _term2(eng, st, eng.ev(node.args[0], st))
+    u = to_z3(eng.ev(node.args[1], st), INT)
+    P = _term1b(eng, st, eng.ev(node.args[2], st))
+    T = _term1r(eng, st, eng.ev(node.args[3], st))
+    pr = _term1i(eng, st, eng.ev(node.args[4], st))
+    n = to_z3(eng.ev(node.args[5], st), INT)
+    INF = z3.Real('INF')
+    x, v, w = z3.Ints('x!dj v!dj w!dj')
+    g = lambda a, b: z3.Select(z3.Select(G, a), b)
+    inr_ = lambda t: z3.And(t >= 0, t < n)
+    Pm = lambda t: z3.Select(P, t)
+    Tt = lambda t: z3.Select(T, t)
+    hyp = z3.And(
+        z3.ForAll([v, w], z3.Implies(z3.And(inr_(v), inr_(w)), g(v, w) >= 0)),
+        inr_(u), Pm(u),
+        z3.ForAll([v], z3.Implies(z3.And(inr_(v), Pm(v)), _reachw(G, u, v))),
+        z3.ForAll([v, w], z3.Implies(z3.And(inr_(v), inr_(w), Pm(v), z3.Not(Pm(w)), _reachw(G, u, w)), wd(G, u, v) <= wd(G, u, w))),
+        z3.ForAll([v, w], z3.Implies(z3.And(inr_(v), inr_(w), Pm(v), z3.Not(Pm(w)), g(v, w) != 0), z3.And(Tt(w) <= wd(G, u, v) + g(v, w), wd(G, u, v) + g(v, w) < INF))),
+        z3.ForAll([w], z3.Implies(z3.And(inr_(w), z3.Not(Pm(w))), z3.Or(Tt(w) == INF, z3.And(inr_(z3.Select(pr, w)), Pm(z3.Select(pr, w)), g(z3.Select(pr, w), w) != 0,
+                                                                                              Tt(w) == wd(G, u, z3.Select(pr, w)) + g(z3.Select(pr, w), w))))))
+    # the conclusions are stated for an explicitly given minimum mval of the tentative values, attained at the temporary node xw
+    # (no quantifier nested in an antecedent): instances of dijkstra_step / dijkstra_lower / dijkstra_exhausted
+    mval = to_z3(eng.ev(node.args[6], st), REAL)
+    xw = to_z3(eng.ev(node.args[7], st), INT)
+    hyp = z3.And(hyp, inr_(xw), z3.Not(Pm(xw)), Tt(xw) == mval, z3.ForAll([w], z3.Implies(z3.And(inr_(w), z3.Not(Pm(w))), mval <= Tt(w))))
+    step = z3.ForAll([x], z3.Implies(z3.And(inr_(x), z3.Not(Pm(x)), Tt(x) == mval, mval != INF), z3.And(_reachw(G, u, x), wd(G, u, x) == mval)), patterns=[Tt(x)])
+    lower = z3.Implies(mval != INF, z3.ForAll([w], z3.Implies(z3.And(inr_(w), z3.Not(Pm(w)), _reachw(G, u, w)), mval <= wd(G, u, w)), patterns=[wd(G, u, w)]))
+    exhausted = z3.Implies(mval == INF, z3.ForAll([w], z3.Implies(z3.And(inr_(w), z3.Not(Pm(w))), z3.Not(_reachw(G, u, w))), patterns=[sdist(G, u, w)]))
+    return z3.Implies(hyp, z3.And(step, exhausted, lower))
+
+
+def _sb_last_masked_argmin(eng, st, node):
+    """the position at which the most recent np.min(M[x, mask]) is attained (Skolem constant of that call's contract)"""
+    if '_masksel_argmin' not in st.ghost:
+        raise ContractError('no np.min over a mask selection seen')
+    return st.ghost['_masksel_argmin']
+
+
 def _sb_lemma_reach_closed(eng, st, node):
     """LEMMA (Lean: reach_closed, induction on the walk length): a node set P that contains s and is closed under following connections
     contains every node reachable from s.  lemma_reach_closed(G, s, P, n) with P a boolean array."""
@@ -2906,7 +3001,7 @@ SPEC_BUILTINS = {
     'dot2': _sb_dot2, 'isperm': _sb_isperm, 'same_object': _sb_same_object, 'unchanged': _sb_unchanged,
     'snapshot': _sb_snapshot, 'argref': _sb_argref, 'lam1': _sb_lam1, 'KCf': _sb_KCf, 'KNf': _sb_KNf, 'result_is_empty': _sb_result_is_empty, 'hopsint': _sb_hopsint, 'lam2': _sb_lam2, 'unique_witness': _sb_unique_witness, 'member': _sb_member, 'dset': _sb_dset(dset), 'rset': _sb_dset(rset), 'wset': _sb_dset(wset), 'cntb': _sb_cntb,
     'modsum': _mk_mod(modsum, 3), 'modsumT': _mk_mod(modsumT, 3), 'degsum': _mk_mod(degsum, 2), 'degsumT': _mk_mod(degsumT, 2), 'agg': _mk_mod(agg, 3),
-    'Qmod': _sb_Qmod, 'walk': _sb_walk, 'isint': (lambda eng, st, node: z3.IsInt(to_z3(eng.ev(node.args[0], st), REAL))), 'sdist': _sb_sdist, 'lemma_walks': _sb_lemma_walks, 'Qrawg': _sb_Qrawg, 'umul': _sb_umul, 'lemma_umul_linear': _sb_lemma_umul_linear, 'QrawB': _mk_mod(QrawB, 1), 'tsum': _mk_specfn(tsum, 1), 'csum': _mk_specfn(csum, 2), 'lemma_modularity': _sb_lemma_modularity, 'lemma_knm_sums': _sb_lemma_knm_sums, 'lemma_relabel': _sb_lemma_relabel, 'lemma_relabel_g': _sb_lemma_relabel_g, 'lemma_agg_compose': _sb_lemma_agg_compose, 'pathsum': _sb_pathsum, 'lemma_pathsum': _sb_lemma_pathsum, 'appended_value': (lambda eng, st, node: st.ghost['_append_last'][1]), 'lemma_reach_closed': _sb_lemma_reach_closed, 'msq': _sb_msq, 'lemma_msq': _sb_lemma_msq, 'lemma_modsum_def': _sb_lemma_modsum_def, 'lemma_walk_ends': _sb_lemma_walk_ends, 'lemma_nonneg_sum_zero': _sb_lemma_nonneg_sum_zero, 'mpw': _sb_mpw, 'mateq': _sb_mateq, 'lemma_mpw': _sb_lemma_mpw, 'lemma_pathsum_append': _sb_lemma_pathsum_append, 'lemma_ext_B': _sb_lemma_ext_B, 'lemma_Q_from_kernel': _sb_lemma_Q_from_kernel, 'lemma_QrawB_def': _sb_lemma_QrawB_def, 'lemma_trace_agg': _sb_lemma_trace_agg, 'lemma_relabel_B': _sb_lemma_relabel_B, 'lemma_agg_compose_B': _sb_lemma_agg_compose_B, 'lemma_Qrawg_def': _sb_lemma_Qrawg_def, 'lemma_agg_compose_g': _sb_lemma_agg_compose_g, 'lemma_qg_from_aggregate': _sb_lemma_qg_from_aggregate, 'lemma_flat_count': _sb_lemma_flat_count, 'unique_count': (lambda eng, st, node: st.ghost['unique_count_last']), 'rounds_to': _sb_rounds_to, 'where_index': _sb_where_index, 'where_index1': _sb_where_index1, 'argsort_inverse': _sb_argsort_inverse, 'exists': _sb_exists, 'lemma_tsum_add': _sb_lemma_tsum_add, 'lemma_tsum_int': _sb_lemma_tsum_int, 'lemma_full_offdiag': _sb_lemma_full_offdiag, 'flat_store_rows': (lambda eng, st, node: st.ghost['_flat_store'][0]), 'flat_store_cols': (lambda eng, st, node: st.ghost['_flat_store'][1]), 'flat_store_len': (lambda eng, st, node: st.ghost['_flat_store'][2]), 'lemma_tsum_plus_transpose': _sb_lemma_tsum_plus_transpose, 'lemma_image_count': _sb_lemma_image_count,
+    'Qmod': _sb_Qmod, 'walk': _sb_walk, 'isint': (lambda eng, st, node: z3.IsInt(to_z3(eng.ev(node.args[0], st), REAL))), 'sdist': _sb_sdist, 'lemma_walks': _sb_lemma_walks, 'Qrawg': _sb_Qrawg, 'umul': _sb_umul, 'lemma_umul_linear': _sb_lemma_umul_linear, 'QrawB': _mk_mod(QrawB, 1), 'tsum': _mk_specfn(tsum, 1), 'csum': _mk_specfn(csum, 2), 'lemma_modularity': _sb_lemma_modularity, 'lemma_knm_sums': _sb_lemma_knm_sums, 'lemma_relabel': _sb_lemma_relabel, 'lemma_relabel_g': _sb_lemma_relabel_g, 'lemma_agg_compose': _sb_lemma_agg_compose, 'pathsum': _sb_pathsum, 'lemma_pathsum': _sb_lemma_pathsum, 'appended_value': (lambda eng, st, node: st.ghost['_append_last'][1]), 'lemma_reach_closed': _sb_lemma_reach_closed, 'Not': (lambda eng, st, node: z3.Not(truth(eng.ev(node.args[0], st)))), 'wd': _sb_wd, 'lemma_wd': _sb_lemma_wd, 'lemma_dijkstra': _sb_lemma_dijkstra, 'last_masked_argmin': _sb_last_masked_argmin, 'msq': _sb_msq, 'lemma_msq': _sb_lemma_msq, 'lemma_modsum_def': _sb_lemma_modsum_def, 'lemma_walk_ends': _sb_lemma_walk_ends, 'lemma_nonneg_sum_zero': _sb_lemma_nonneg_sum_zero, 'mpw': _sb_mpw, 'mateq': _sb_mateq, 'lemma_mpw': _sb_lemma_mpw, 'lemma_pathsum_append': _sb_lemma_pathsum_append, 'lemma_ext_B': _sb_lemma_ext_B, 'lemma_Q_from_kernel': _sb_lemma_Q_from_kernel, 'lemma_QrawB_def': _sb_lemma_QrawB_def, 'lemma_trace_agg': _sb_lemma_trace_agg, 'lemma_relabel_B': _sb_lemma_relabel_B, 'lemma_agg_compose_B': _sb_lemma_agg_compose_B, 'lemma_Qrawg_def': _sb_lemma_Qrawg_def, 'lemma_agg_compose_g': _sb_lemma_agg_compose_g, 'lemma_qg_from_aggregate': _sb_lemma_qg_from_aggregate, 'lemma_flat_count': _sb_lemma_flat_count, 'unique_count': (lambda eng, st, node: st.ghost['unique_count_last']), 'rounds_to': _sb_rounds_to, 'where_index': _sb_where_index, 'where_index1': _sb_where_index1, 'argsort_inverse': _sb_argsort_inverse, 'exists': _sb_exists, 'lemma_tsum_add': _sb_lemma_tsum_add, 'lemma_tsum_int': _sb_lemma_tsum_int, 'lemma_full_offdiag': _sb_lemma_full_offdiag, 'flat_store_rows': (lambda eng, st, node: st.ghost['_flat_store'][0]), 'flat_store_cols': (lambda eng, st, node: st.ghost['_flat_store'][1]), 'flat_store_len': (lambda eng, st, node: st.ghost['_flat_store'][2]), 'lemma_tsum_plus_transpose': _sb_lemma_tsum_plus_transpose, 'lemma_image_count': _sb_lemma_image_count,
     'frow': (lambda eng, st, node: frow(to_z3(eng.ev(node.args[0], st), INT), to_z3(eng.ev(node.args[1], st), INT))), 'fcol': (lambda eng, st, node: fcol(to_z3(eng.ev(node.args[0], st), INT), to_z3(eng.ev(node.args[1], st), INT))), 'lemma_agg_symm': _sb_lemma_agg_symm, 'lemma_agg_identity': _sb_lemma_agg_identity, 'lemma_q_from_aggregate': _sb_lemma_q_from_aggregate,
     'lemma_masked_degree': _sb_lemma_masked_degree, 'lemma_degree_monotone': _sb_lemma_degree_monotone, 'result': _sb_result, 'raised': _sb_raised, 'shape_is': _sb_shape_is,
 }
